@@ -6,6 +6,7 @@ import (
 
 	geom "github.com/twpayne/go-geom"
 	"github.com/twpayne/go-geom/xy"
+	"github.com/twpayne/go-geom/xy/lineintersector"
 	"github.com/twpayne/go-geom/xy/location"
 )
 
@@ -263,6 +264,24 @@ func genC11(r *Rng, e *Emitter, n int) {
 			l := layoutForStride(stride)
 			e.emit("C11.online", fmt.Sprintf("(%d %s %s)", stride, sxCoord(p), sxCoord(line)), guard(func() string {
 				return fmt.Sprintf("%v", xy.IsOnLine(l, p, line))
+			}))
+			continue
+		}
+		if g <= 16 && r.chance(1, 5) && (xs[0] != xs[1] || ys[0] != ys[1]) {
+			// the point-on-segment test under either strategy, called directly
+			a, b := geom.Coord{float64(xs[0]), float64(ys[0])}, geom.Coord{float64(xs[1]), float64(ys[1])}
+			q := geom.Coord{p[0], p[1]}
+			if r.chance(1, 2) { // on the segment's line, within or beyond its ends
+				t := r.Intn(7) - 2
+				q = geom.Coord{a[0] + float64(t)*(b[0]-a[0]), a[1] + float64(t)*(b[1]-a[1])}
+				if r.chance(1, 2) && (int(b[0]-a[0])%2 == 0 && int(b[1]-a[1])%2 == 0) {
+					q = geom.Coord{a[0] + float64(t)*(b[0]-a[0])/2, a[1] + float64(t)*(b[1]-a[1])/2}
+				}
+			}
+			e.tally("op=ptline")
+			e.emit("C11.ptline", fmt.Sprintf("(%s %s %s)", sxCoord(q), sxCoord(a), sxCoord(b)), guard(func() string {
+				return fmt.Sprintf("(%v %v)", lineintersector.PointIntersectsLine(lineintersector.RobustLineIntersector{}, q, a, b),
+					lineintersector.PointIntersectsLine(lineintersector.NonRobustLineIntersector{}, q, a, b))
 			}))
 			continue
 		}
